@@ -204,3 +204,47 @@ def last_run(to: int, b1: bool, b2: bool, b3: bool, b4: bool, b5: bool, b6: bool
         p.scanner = load_scanner(p, "R", [0, to, 0, 0, 0, 0])
     got = [int(l[0]) for l in p.next()]
     return (got, list(p.variables.get("a", [])), list(p.variables.get("l", [])))
+
+
+# ------------------------------------------------------------------ O3 advance() inside a bounded scan window, with last()
+ADVWIN_TPL = '$SYM[*][ push("a", line_number()) @k.nocontrib == line_number() -> advance(@n) last.nocontrib() -> push("l", line_number()) ]'
+
+
+def advwin_oracle(to, k, n, b6):
+    a, l = [], []
+    adv = 0
+    scans = 0
+    for i in range(to + 1):
+        scans += 1
+        if adv > 0:
+            adv -= 1
+            continue
+        a.append(i)
+        if i == k:
+            adv = n
+        if i == to:
+            l.append(i)
+    return (a, l, scans)
+
+
+@ob(
+    "C13",
+    "O3-advance-in-window",
+    pre=["1 <= to <= 5", "-1 <= k <= 6", "0 <= n <= 6"],
+    post="_ == advwin_oracle(to, k, n, b6)",
+    bound="7 stub records (no interior blanks, trailing record blank or not by a symbolic flag), scan '0-to' with symbolic end "
+    "before the end of the file, advance(@n) firing on symbolic line k with symbolic n (it may reach or pass the window's end), a "
+    "last() component: lines evaluated, last() firings (only on the window's final line, and only if it is evaluated), scan count; "
+    "nothing after the window is evaluated",
+    outside="interior blank records; windows reaching the end of the file (O2-last)",
+    encodes=ENC + ["csvpath/matching/functions/lines/last.py:Last._decide_match", "csvpath/scanning/scanner.py:Scanner.is_last/includes"],
+    tiers={"quick": {"timeout": 900, "shards": product(b6=[False, True])}},
+)
+def advwin_run(to: int, k: int, n: int, b6: bool) -> Tuple[List[int], List[int], int]:
+    recs = [[str(i)] for i in range(NREC - 1)] + [[] if b6 else [str(NREC - 1)]]
+    p, pr = fresh(ADVWIN_TPL, recs)
+    p.scanner = load_scanner(p, "R", [0, to, 0, 0, 0, 0])
+    p.variables["k"] = k
+    p.variables["n"] = n
+    p.fast_forward()
+    return (list(p.variables.get("a", [])), list(p.variables.get("l", [])), p.scan_count)
